@@ -45,7 +45,7 @@ func (a *actor) attached() bool { return !a.isView() || (a.located && a.loc == a
 // Variants (name = "<users>@<cwd at Sub time>"):
 //
 //	admin@/    every actor is the administrator, umask 022; views created while the parent's cwd is "/"
-//	users@/    V1 acts as u1 (umask 027), V2 as u2 (umask 077), set through the views during setup
+//	users@/    V1 acts as u1 (umask 027), V2 as u2 (umask 077), V3 as u1 (umask 077), set through the views during setup
 //	admin@/p/q views created while the parent's cwd is "/p/q" (inherited by value), parent then back to "/"
 //	core-...   the same with the reduced "core" alphabet, explored one level deeper
 //	Windows:...  the same on Windows-typed file systems (ostype.go); the parent holds a second volume D:
@@ -126,6 +126,7 @@ func newParent(win bool) (*memfs.MemFS, map[string]avfs.UserReader, error) {
 		func() error { return v.MkdirAll(sp("/p/q"), 0o777) },
 		func() error { return v.WriteFile(sp("/p/q/f"), []byte("ff"), 0o666) },
 		func() error { return v.WriteFile(sp("/p/g"), []byte("gg"), 0o666) },
+		func() error { return v.Mkdir(sp(freshDir), 0o777) }, // never populated (ops.go: freshDir)
 		func() error { return v.MkdirAll(sp("/o"), 0o777) },
 		func() error { return v.WriteFile(sp("/o/h"), []byte("hh"), 0o666) },
 	}
@@ -205,7 +206,7 @@ func (s *sys) reset() error {
 			a.fs = s.P
 			a.cwd = "/"
 			a.chdirDone = true
-		case "V1", "V0":
+		case "V1", "V0", "V3":
 			v, err := s.P.Sub(s.osp(sp.dir))
 			if err != nil {
 				return fmt.Errorf("Sub(%q): %v", sp.dir, err)
@@ -244,8 +245,12 @@ func (s *sys) reset() error {
 		for _, st := range []struct {
 			actor, user string
 			umask       uint32
-		}{{"V1", "u1", 0o027}, {"V2", "u2", 0o077}} {
+		}{{"V1", "u1", 0o027}, {"V2", "u2", 0o077}, {"V3", "u1", 0o077}} {
 			a := byName[st.actor]
+			if a == nil {
+				continue // the core alphabet has no V3
+			}
+
 			_ = a.fs.SetUser(s.users[st.user])
 			_ = a.fs.SetUMask(fs.FileMode(st.umask))
 			a.user, a.umask = st.user, st.umask
@@ -1079,8 +1084,14 @@ func (s *sys) Step(i int) bfs.StepResult {
 		key += "\n!diverged"
 	}
 
+	// A call that succeeds through a view whose root node nobody else can reach
+	// changes something no dump shows (the mode of the removed directory, an entry
+	// in it): the state key stays what it was, and the calls tried next from this
+	// state would meet what this one left behind. The instance is rebuilt.
+	hidden := x.isView() && !x.located && rr.Kind == "ok" && !readOnly[c.Op] && !isSetter[c.Op] && c.Op != "Getwd"
+
 	res := bfs.StepResult{
-		Changed: key != s.lastKey, Key: key, Broken: diverged || poisoned, Rebuild: diverged || poisoned,
+		Changed: key != s.lastKey, Key: key, Broken: diverged || poisoned, Rebuild: diverged || poisoned || hidden,
 		Outcome: x.kind + "/" + c.Op + "/" + twinKind(hasTwin, tr), Viols: viols,
 	}
 
